@@ -55,8 +55,9 @@ func New(session *packet.Session) (h *DNSHandler, err error) {
 func (h *DNSHandler) Close() error {
 	h.mutex.Lock()
 	defer h.mutex.Unlock()
-	h.DNSTable = nil
-	h.mdnsCache = nil
+	// release the tables but keep them usable: a packet can still be in flight when the handler is closed
+	h.DNSTable = make(map[string]packet.DNSEntry)
+	h.mdnsCache = make(map[string]cache)
 	return nil
 }
 
